@@ -3,7 +3,7 @@ fragment F (docs/C01vm.md).  Extra check contributing to C01."""
 import json, os, re, sys
 import verif as V
 
-PROP = "C01vm"
+PROP = "C01"          # a sub-check of C01 (and of C04 for the peephole theorem); evidence in evidence/C01vm.json
 PROPS = "props/C01vm.v"
 DEPS = ["c01vm/Run.v"]
 
@@ -33,7 +33,7 @@ def _prog_of(line):
 
 
 def run(tier, seed):
-    c = V.Check(PROP, tier, seed)
+    c = V.Check(PROP, tier, seed, evidence_name="C01vm")
     c.assumptions += [
         "natives (funcIndex2, opiter's enumeration of a value, error/length, the 8 binary operators) are total "
         "functions value -> value + error; the theorem quantifies over all of them; the executable correspondence "
@@ -45,8 +45,8 @@ def run(tier, seed):
         "message text; ValueError payloads of `error` are compared exactly",
         "the correspondence ties Compile.v to compiler.go per sampled program (exact instruction list incl. peephole) "
         "and VM.v/Den.v to execute.go per sampled (program, input)",
-        "peephole_sound (optimizeCodeOps preserves observations) is stated, not proved: theorem is for the code before "
-        "that pass; the model runs both versions on every case and compares both with den",
+        "optimizeCodeOps is modelled twice: as array updates (literal transcription) and as a right fold (the version the "
+        "theorems are about); the model checks on every sampled program that both coincide",
     ]
     proved = c.prove(PROPS)
     exe_h, hlog = V.build_harness("c01vm")
